@@ -32,7 +32,8 @@ class Obl(object):
 
 def _env():
     e = dict(os.environ)
-    e['PYTHONPATH'] = '/repo/rbql-py:' + VERIF
+    from vf.paths import REPO
+    e['PYTHONPATH'] = REPO + '/rbql-py:' + VERIF
     e['PYTHONDONTWRITEBYTECODE'] = '1'
     e['PYTHONWARNINGS'] = 'ignore'
     e['PYTHONHASHSEED'] = '0'
